@@ -27,18 +27,30 @@ def gen_case(rng):
         adds.insert(rng.randint(0, len(adds)), {"name": 99, "interval": 1, "weight": rng.choice([1, 3, 64]), "min": 0})
     case = {"cycles": cycles, "adds": adds, "steps": rng.randint(6, 14), "seed": rng.randint(1, 2**31)}
     case["wscale"] = random.Random(case["seed"]).choice([64, 64, 8, 1])
+    r3 = random.Random(case["seed"] ^ 0x7AB1E)
+    if r3.random() < 0.3 and case["steps"] >= 4:
+        case["table_edit"] = {"step": r3.randint(2, case["steps"] - 2), "name": r3.choice(adds)["name"], "interval": r3.choice([1, 2, 3, 5])}
     if cycles >= 2 and rng.random() < 0.3:
         # the documented dynamic use: the consumer of the step generator changes a weight between two moves of the LAST step
         case["edit"] = {"after": rng.randint(0, cycles - 2), "name": rng.choice(adds)["name"], "weight": rng.choice([0, 0, 0, 1, 64])}
-        tbl, _ = model_table(case)
+        tbl, _ = model_table(case, case["steps"] - 1)
         due = [e for e in tbl if (case["steps"] - 1) % e["interval"] == 0]
         if sum(case["edit"]["weight"] if e["name"] == case["edit"]["name"] else e["weight"] for e in due) == 0:
             del case["edit"]      # the property's side condition: the due weights are not all zero
     return case
 
 
-def model_table(case):
+def adds_at(case, step):
+    """the add_move calls that describe the table in force at `step` (a later edit of an interval = the same call with the new interval)"""
+    te = case.get("table_edit")
+    if not te or step < te["step"]:
+        return case["adds"]
+    return [dict(e, interval=te["interval"]) if e["name"] == te["name"] else e for e in case["adds"]]
+
+
+def model_table(case, step=0):
     """python mirror of add_moves, only used for the direct oracle"""
+    case = dict(case, adds=adds_at(case, step))
     tbl = []
     refused = []
     for e in case["adds"]:
@@ -126,8 +138,12 @@ def run(res: C.Result):
         es = "[" + "; ".join(entry_lit(e) for e in c["adds"]) + "]"
         flat_tbl = [int(round(x)) for row in r["table"] for x in row]
         tbl_items.append(f"({k}%nat, ({c['cycles']}%nat, {es}), {C.zlist(flat_tbl)})")
+        if c.get("table_edit"):
+            dist["tables_edited_between_steps"] = dist.get("tables_edited_between_steps", 0) + 1
         for st in r["steps"]:
             s, names = st["step"], st["names"]
+            tbl, _ = model_table(c, s)
+            es = "[" + "; ".join(entry_lit(e) for e in adds_at(c, s)) + "]"
             due = [e for e in tbl if s % e["interval"] == 0]
             dist["steps"] += 1
             why = []
